@@ -1,16 +1,62 @@
-(** C32 — traces are well-formed task trees.  Property theorems only. *)
-From Akita Require Import Lib.Base C32.Model C32.Spec.
+(** C32 — traces are well-formed task trees.  Property theorems only.
+
+    [WF tr] (Spec.v) is the declarative well-formedness of the event list recorded by
+    a tracer attached to every component, stated over every decomposition
+    [tr = before ++ event :: after]: every task is started at most once; an end of a
+    started task comes after its start, not before its start time, and is its only
+    end; every tag and milestone refers to a task started before it and not yet
+    ended, at a time inside the task's lifetime; each location hosts tasks of a
+    single kind; and (at quiescence) every started task has ended.
+    PARTIAL: the theorems cover the checker and the API helper layer; the call
+    sites in the components are covered by trace inclusion on sampled runs. *)
+From Akita Require Import Lib.Base C32.Model C32.Spec C32.Proofs1 C32.Proofs2 C32.Proofs3.
 Local Open Scope N_scope.
 
+(** The executable acceptor decides the declarative property. *)
+Theorem trace_wf_iff_WF : forall tr, trace_wf tr = true <-> WF tr.
+Proof. exact Proofs2.trace_wf_iff_WF. Qed.
+Print Assumptions trace_wf_iff_WF.
+
+(** ... and without the quiescence clause (a run that is still busy). *)
+Theorem c32_trace_wf_open_iff : forall tr, trace_wf_open tr = true <-> WF_open tr.
+Proof. exact trace_wf_open_iff. Qed.
+Print Assumptions c32_trace_wf_open_iff.
+
+(** The request helpers of the tracing API, used as intended (a (domain, message)
+    key is received at most once; TraceReqComplete only on an open req_in;
+    EndReqInOnReset on anything; times do not decrease), emit a well-formed trace:
+    each req_in is started once under a fresh task ID, ended exactly once under the
+    same ID by the completion or the reset helper — a reset of a key that holds no
+    task emits nothing — and the registry holds exactly the keys whose req_in is
+    still open, so that it is empty once everything is completed or reset. *)
+Theorem c32_registry_pairing : forall base cs, req_discipline [] [] 0 cs = true ->
+  let s := fst (api_run (api0 base) cs) in
+  let tr := map project (snd (api_run (api0 base) cs)) in
+  WF_open tr /\
+  (forall k, kmem k (live_after [] cs) = true <-> exists id, rget k (a_recv s) = Some id) /\
+  (live_after [] cs = [] -> WF tr /\ forall k, rget k (a_recv s) = None).
+Proof. exact registry_pairing. Qed.
+Print Assumptions c32_registry_pairing.
+
+(** The acceptor on concrete traces: one accepted, and one rejected for each clause. *)
 Example c32_acceptor_nonvacuous :
   trace_wf [TStart 1 0 1 7 10; TMile 1 12; TStart 2 1 2 8 12; TTag 2 13; TEnd 2 15; TEnd 1 20; TEnd 99 20] = true /\
   trace_wf [TStart 1 0 1 7 10; TStart 1 0 1 7 11; TEnd 1 20] = false /\
   trace_wf [TStart 1 0 1 7 10] = false /\
   trace_wf [TStart 1 0 1 7 10; TEnd 1 20; TEnd 1 21] = false /\
+  trace_wf [TStart 1 0 1 7 10; TEnd 1 9] = false /\
+  trace_wf [TEnd 1 5; TStart 1 0 1 7 10; TEnd 1 20] = false /\
   trace_wf [TStart 1 0 1 7 10; TStart 2 0 2 7 10; TEnd 1 20; TEnd 2 20] = false /\
-  trace_wf [TStart 1 0 1 7 10; TEnd 1 20; TMile 1 20] = false.
+  trace_wf [TStart 1 0 1 7 10; TEnd 1 20; TMile 1 20] = false /\
+  trace_wf [TTag 1 3; TStart 1 0 1 7 10; TEnd 1 20] = false /\
+  trace_wf [TStart 1 0 1 7 10; TTag 1 30; TEnd 1 20] = false.
 Proof. vm_compute. repeat split. Qed.
 
-Theorem c32_placeholder : trace_wf [] = true.
-Proof. reflexivity. Qed.
-Print Assumptions c32_placeholder.
+(** The pairing theorem on a concrete script with a reset in the middle. *)
+Example c32_pairing_nonvacuous :
+  let cs := [CReceive 1 10 1 5; CReceive 1 11 2 6; CComplete 1 10 8; CResetReqIn 1 11 9; CResetReqIn 1 12 9;
+             CReceive 2 10 1 9; CComplete 2 10 12] in
+  req_discipline [] [] 0 cs = true /\ live_after [] cs = [] /\
+  map project (snd (api_run (api0 100) cs)) =
+    [TStart 100 10 1 7 5; TStart 101 11 1 7 6; TEnd 100 8; TEnd 101 9; TStart 102 10 1 13 9; TEnd 102 12].
+Proof. vm_compute. repeat split. Qed.
